@@ -141,7 +141,16 @@ fn build_body(toks: &[Tok], b: &mut Builder, nprocs_callable: usize, top_level: 
             }
             8 => {
                 if nprocs_callable > 0 {
+                    // one call in three sits between a PUSH and the matching POP: the machine stack is deeper inside the
+                    // callee than at the caller's own entry, and back to that level when the caller returns
+                    let wrap = t.b % 3 == 0;
+                    if wrap {
+                        out.push(Item::Ins(Insn::new("push", vec![Opd::R16(R16::AX)])));
+                    }
                     out.push(Item::Ins(Insn::new("call", vec![Opd::Name(proc_name(b.case_variants, t.a as usize % nprocs_callable))])));
+                    if wrap {
+                        out.push(Item::Ins(Insn::new("pop", vec![Opd::R16(R16::AX)])));
+                    }
                 }
             }
             9 => out.push(Item::Label(b.fresh())),
@@ -290,6 +299,8 @@ pub struct Features {
     pub call_depth2: bool,
     pub label_adjacent_special: bool,
     pub repeated_call: bool,
+    /// a call executed inside a procedure directly after a PUSH (popped again after the callee returned)
+    pub push_call_in_proc: bool,
 }
 
 pub fn features(p: &Program, trace: &[usize], flat: &Flat) -> Features {
@@ -306,9 +317,16 @@ pub fn features(p: &Program, trace: &[usize], flat: &Flat) -> Features {
     let mut depth = 0;
     let mut maxd = 0;
     let mut calls: std::collections::HashMap<String, u32> = Default::default();
+    let mut push_call_in_proc = false;
+    let mut prev_push = false;
     for &i in trace {
+        let was_push = prev_push;
+        prev_push = matches!(&flat.ops[i], FlatOp::Ins(x) if x.mn == "push");
         match &flat.ops[i] {
             FlatOp::Ins(x) if x.mn == "call" => {
+                if depth >= 1 && was_push {
+                    push_call_in_proc = true;
+                }
                 depth += 1;
                 maxd = maxd.max(depth);
                 if let Some(Opd::Name(n)) = x.ops.get(0) {
@@ -331,5 +349,5 @@ pub fn features(p: &Program, trace: &[usize], flat: &Flat) -> Features {
     if let Some(Item::Label(_)) = p.code.last() {
         adj = true;
     }
-    Features { backward_jump: backward, call_depth2: maxd >= 2, label_adjacent_special: adj, repeated_call: calls.values().any(|c| *c >= 2) }
+    Features { backward_jump: backward, call_depth2: maxd >= 2, label_adjacent_special: adj, repeated_call: calls.values().any(|c| *c >= 2), push_call_in_proc }
 }
